@@ -61,14 +61,14 @@ type pipeCase struct {
 }
 
 var pipeHosts = map[string]string{
-	"origin": "origin.test", "denied": "denied.test", "deniedUpper": "WWW.DENIED.TEST", "deniedWide": "\uff44\uff45\uff4e\uff49\uff45\uff44.test", "denyExcl": "excl.denied.test",
+	"origin": "origin.test", "denied": "denied.test", "deniedUpper": "WWW.DENIED.TEST", "deniedWide": "\uff44\uff45\uff4e\uff49\uff45\uff44.test", "deniedDot": "denied.test.", "deniedUpperRule": "Shouty.Test", "denyExcl": "excl.denied.test",
 	"direct": "direct.test", "directUpper": "WWW.DIRECT.TEST", "directExcl": "excl.direct.test",
 	"other":  "other.test",
 	"lhName": "localhost", "lhUpper": "LOCALHOST", "lo4": "127.0.0.1", "lo4b": "127.9.9.9", "lo6": "[::1]",
 	"unspec4": "0.0.0.0", "unspec6": "[::]", "unspec6b": "[::0]", "unspec6c": "[0:0:0:0:0:0:0:0]",
 	"mapped4": "[::ffff:127.0.0.1]", "mapped4hex": "[::ffff:7f00:1]",
 	"mappedUnspec": "[::ffff:0.0.0.0]", "mappedUnspecHex": "[::ffff:0:0]", "mappedUnspecLong": "[0:0:0:0:0:ffff:0:0]",
-	"lo6zone": "[::1%25lo]", "lhDot": "localhost.",
+	"lo6zone": "[::1%25lo]", "lhDot": "localhost.", "lhEmpty": ":80",
 	"lhWide": "\uff4c\uff4f\uff43\uff41\uff4c\uff48\uff4f\uff53\uff54", "lo4Ideo": "127\u30020\u30020\u30021",
 }
 
@@ -349,7 +349,7 @@ func pipeFwdCfg(c *pipeCase, host string) fwdCfg {
 		fc.BasicAuth = pipeUser + ":" + pipePass
 	}
 	if c.Cfg.Deny {
-		fc.Deny = []string{`denied\.test$`, `-^excl\.`}
+		fc.Deny = []string{`denied\.test$`, `-^excl\.`, `^Shouty\.Test$`}
 	}
 	if c.Cfg.Dd {
 		fc.Direct = []string{`direct\.test$`, `-^excl\.`}
